@@ -604,6 +604,74 @@ def _inl(rule):
     return run
 
 
+NAME_ATTRS = ('__name__', '__qualname__')
+
+
+def rule_error_type_name(model):
+    r = RuleResult('C14.R9', 'error_type inside a handler is the same '
+                   'notion of "name of the exception class" the handler '
+                   'clauses are matched with (class and base classes): the '
+                   'handler search and the binding read the same attribute')
+    ci = model.cls('DT_Try', 'Try')
+    used = {}
+    for fi in ci.methods.values():
+        for x in own_nodes(fi.node):
+            if isinstance(x, ast.Compare) and any(
+                    isinstance(o, (ast.Eq, ast.NotEq, ast.In))
+                    for o in x.ops):
+                for y in [x.left] + list(x.comparators):
+                    if isinstance(y, ast.Attribute) and y.attr in NAME_ATTRS:
+                        used.setdefault(y.attr, []).append((fi, x))
+                        r.instance(fi.where, x, f'matches by {y.attr}')
+    if not used:
+        raise AnalysisError('C14.R9: handler matching by class name not '
+                            'found in DT_Try.Try')
+    if len(used) > 1:
+        fi, x = used[sorted(used)[-1]][0]
+        r.finding(fi.where, x, 'the handler search compares clause names '
+                  f'with different attributes ({sorted(used)}): a class '
+                  'and its base classes are not matched alike', node=x,
+                  ctx=fi)
+    nbind = 0
+    for fi in ci.methods.values():
+        for x in own_nodes(fi.node):
+            if not isinstance(x, ast.Call):
+                continue
+            for kw in x.keywords:
+                if kw.arg != 'error_type':
+                    continue
+                nbind += 1
+                v = kw.value
+                attrs = set()
+                exprs = [v]
+                if isinstance(v, ast.Name):
+                    exprs = [d for d in model.local_defs(fi, v.id)
+                             if isinstance(d, ast.AST)]
+                for e in exprs:
+                    if isinstance(e, ast.Attribute) and e.attr in NAME_ATTRS:
+                        attrs.add(e.attr)
+                    else:
+                        attrs.add('?' + norm(e))
+                r.instance(fi.where, kw.value,
+                           f'error_type = {sorted(attrs)}')
+                if any(a.startswith('?') for a in attrs) or not attrs:
+                    raise AnalysisError(
+                        'C14.R9: error_type is not a class-name attribute '
+                        f'({sorted(attrs)})')
+                if attrs != set(used):
+                    r.finding(fi.where, f'error_type={norm(kw.value)} via '
+                              f'{sorted(attrs)}', 'error_type is bound to '
+                              f'the class\'s {sorted(attrs)[0]} while the '
+                              'except clauses are matched against '
+                              f'{sorted(used)[0]}: for a class defined '
+                              'inside a class or function the handler '
+                              '`<dtml-except Name>` is selected but '
+                              'error_type is not `Name`', node=x, ctx=fi)
+    if nbind < 1:
+        raise AnalysisError('C14.R9: binding of error_type not found')
+    return r
+
+
 def rule_handler_table(model):
     r = RuleResult('C14.R8', 'the handler table and the blocks a try / '
                    'raise / return tag keeps are re-iterable: a one-shot '
@@ -618,7 +686,7 @@ def rule_handler_table(model):
 
 
 RULES = [_inl(rule_return), _inl(rule_placement), _inl(rule_raise_exit),
-         rule_handler_table]
+         rule_handler_table, _inl(rule_error_type_name)]
 EXPLANATION = (
     'Who-may-catch analysis: least set of functions that can let DTReturn '
     'out (call graph incl. the block dispatch of render_blocks_), every try '
